@@ -265,6 +265,30 @@ def ARet.enc : ARet → Option Ret
   | .obj n => some (.obj n)
   | .bytes b => some (.bytes b)
 
+/-- a call that is well-formed and, if it is an `update`, has only encodable pairs -/
+def AOp.ok : AOp → Bool
+  | .update _ ps => (convPairs ps).2
+  | a => a.wf
+
+/-- the byte-level operation sequence a call sequence lowers to (lowering `setdefault` looks at the current fields);
+    `none`: some call addresses a missing object or raises UnicodeEncodeError -/
+def lowerAll (st : Store) : List AOp → Option (List Op)
+  | [] => some []
+  | a :: as =>
+    match st[a.target]? with
+    | Option.none => Option.none
+    | some fs =>
+      match lower fs a with
+      | Option.none => Option.none
+      | some op => (lowerAll (C35.step st op).1 as).map (fun ops => op :: ops)
+
+/-- a `str`-level trace taken back to bytes -/
+def encTrace : List (ARet × Store) → Option (List (Ret × Store))
+  | [] => some []
+  | (r, st) :: tr => match r.enc, encTrace tr with
+    | some r', some tr' => some ((r', st) :: tr')
+    | _, _ => Option.none
+
 /-- a Python `dict` literal built by successive insertion -/
 def dictSet (d : Fields) (k v : Bytes) : Fields :=
   if d.any (fun e => e.1 == k) then d.map (fun e => if e.1 == k then (e.1, v) else e) else d ++ [(k, v)]
